@@ -102,6 +102,12 @@ class Events:
                 l = op_local(t['args'][0])
                 if l is not None and self._through_guard(fn, l, 'freelist::Freelist'):
                     evs.append(dict(ev='P', how=role, callee=r.qual))
+        # P through std::mem::{replace, take, swap} on the guarded shared free list (whole-value store)
+        if sp in ('std::mem::replace', 'std::mem::take', 'std::mem::swap', 'core::mem::replace', 'core::mem::take', 'core::mem::swap'):
+            for a in t['args'][:2]:
+                l = op_local(a)
+                if l is not None and fn.locals[l]['ty'] == '&mut freelist::Freelist' and self._through_guard(fn, l, 'freelist::Freelist'):
+                    evs.append(dict(ev='P', how=last_seg(sp), callee=sp))
         rr = self._role('release-role')
         if rr is not None and (path == rr.path or rpath == rr.path) and t['args']:
             l = op_local(t['args'][0])
